@@ -2466,7 +2466,7 @@ class C12(Check):
     ]
     assumptions = [
         'capacity fields hold non-negative Python ints (None-valued capacity fields are outside the domain, as in C15)',
-        'details dictionaries use field names or non-attribute names as keys (a key naming a method of the class is not modelled)',
+        'details dictionaries do not use the keys "forgiving" / "self" (they bind parameters of _set_fields / __init__); since a313e77 any other non-field key, incl. method names, is refused as the model says',
         'label values were accepted by the Labels constructor (validators are deterministic: the same value is accepted again on decoding)',
         'node, pool and delegation ids are str (add_defined_for silently ignores other types)',
         'a document is a JSON VALUE: json.loads has already collapsed a delegation id repeated in the text (last one wins) '
